@@ -151,7 +151,7 @@ pub fn handle_unwatch(conn: &mut Connection, storage: &Arc<StorageEngine>) -> Re
 
 /// Check if we should queue a command (we're in a transaction)
 pub fn should_queue_command(command: &str) -> bool {
-    !matches!(command, "MULTI" | "EXEC" | "DISCARD" | "WATCH" | "UNWATCH")
+    !matches!(command, "MULTI" | "EXEC" | "DISCARD" | "WATCH")
 }
 
 /// Queue a command for later execution
